@@ -462,7 +462,18 @@ class Executor(object):
     def resched(self, kind, seed):
         """Re-run the accepted history with another jumping order inside every height."""
         self._ev('resched', kind, seed)
+        if kind == 'last_all':
+            # every interleaving of the *current* height (earlier heights as they were), if there are at
+            # most 24 of them: the place where a transient order dependence lives
+            res = None
+            for ops in all_orders_of_last_height(self.accepted, 24):
+                r = self._resched_one(kind, seed, ops)
+                res = res or r
+            return res
         ops = reorder(self.accepted, kind, seed)
+        return self._resched_one(kind, seed, ops)
+
+    def _resched_one(self, kind, seed, ops):
         if ops is None or ops == self.accepted:
             self.st.inc('resched-identical-skipped')
             return None
@@ -504,7 +515,41 @@ def strip_trailing(cells):
     return r
 
 
-RESCHED_KINDS = ('random', 'roundrobin', 'reverse_rr', 'each_finishes', 'last_first')
+RESCHED_KINDS = ('random', 'roundrobin', 'reverse_rr', 'each_finishes', 'last_first', 'last_all')
+
+
+def all_orders_of_last_height(accepted, cap):
+    """All interleavings (each athlete's own sequence kept) of the trials after the last bar move; [] if
+    there are more than `cap` of them or fewer than two."""
+    cut = 0
+    for i, op in enumerate(accepted):
+        if op[0] in ('add', 'bar'):
+            cut = i + 1
+    head, seg = list(accepted[:cut]), list(accepted[cut:])
+    per = {}
+    for op in seg:
+        per.setdefault(op[1], []).append(op)
+    if len(per) < 2:
+        return []
+    out = []
+
+    def rec(prefix, idx):
+        if len(out) > cap:
+            return
+        if all(idx[b] == len(per[b]) for b in per):
+            out.append(list(prefix))
+            return
+        for b in sorted(per):
+            if idx[b] < len(per[b]):
+                idx[b] += 1
+                prefix.append(per[b][idx[b] - 1])
+                rec(prefix, idx)
+                prefix.pop()
+                idx[b] -= 1
+    rec([], {b: 0 for b in per})
+    if len(out) > cap or len(out) < 2:
+        return []
+    return [head + o for o in out if head + o != list(accepted)]
 
 
 def reorder(accepted, kind, seed):
@@ -924,7 +969,7 @@ def nontrivial(check, ex):
 
 
 TIERS = {
-    'quick': {'C02': 480000, 'C03': 600000, 'C08': 160000, 'wall': 1200, 'det': 400},
+    'quick': {'C02': 480000, 'C03': 600000, 'C08': 130000, 'wall': 1200, 'det': 400},
     'thorough': {'C02': 6000000, 'C03': 6000000, 'C08': 2000000, 'wall': 7200, 'det': 4000},
 }
 
